@@ -12,3 +12,12 @@ func init() {
 		return c.TLGObs(all, all, true)
 	}}
 }
+
+func init() {
+	Props["XPANIC"] = PropDef{Explanation: "debug: all reachable panics", Run: func(c *Ctx) []core.Ob {
+		all := func(*ssa.Function) bool { return true }
+		obs := c.Panics(c.Verif, c.DecoderRoots(), all, all)
+		obs = append(obs, c.FuncFieldCalls(all, all)...)
+		return obs
+	}}
+}
